@@ -1,5 +1,6 @@
 import Props.GenTie.Order
 import Gen.AddToPoolEffects
+import Gen.SetCoinstateEffects
 
 /-!
 GenTie.OrderRules — statements about the handlers **as translated**, with no model in between: for every value of the atoms the
@@ -15,5 +16,17 @@ theorem add_to_pool_orders (a b c : Gen.Outcome) (has_head : Bool) :
     let r := Gen.add_to_pool_effects a b c has_head
     ("pool_append" ∈ r.1 → a = .ok ∧ b = .ok ∧ c = .ok ∧ has_head = true ∧ r.2 = false) := by
   cases a <;> cases b <;> cases c <;> cases has_head <;> decide
+
+/-- C13, for every schedule of the node's threads: the three validations of a submission, the test that there is a head and the
+append to the pool all stand inside one `with self.lock:` block (only the final `return True` follows it), and so do the three
+state changes of a head change (new state, clean-up of the pool, marking it validated). The manager's lock is not re-entrant-free
+magic: it is one `threading.Lock` taken by both methods — so every execution of the two methods by any number of threads is, as far
+as the pool and the served state are concerned, a sequence of *whole* submissions and head changes, which is what `C13`'s theorems
+about `ChainMgr` quantify over. -/
+theorem pool_operations_are_critical_sections :
+    (∀ t ∈ ["by_itself", "has_head", "at_head", "no_duplicate", "pool_append"], t ∈ Gen.add_to_pool_effects_under_lock) ∧
+    (∀ t ∈ Gen.add_to_pool_effects_outside_lock, t = "return_true") ∧
+    (∀ t ∈ ["set_state", "cleanup_pool", "mark_valid"], t ∈ Gen.set_coinstate_effects_under_lock) ∧
+    Gen.set_coinstate_effects_outside_lock = [] := by decide
 
 end GenTie
